@@ -21,13 +21,21 @@ consequence: `import name` in the script resolves to the module CPython's own
 locations) or three scripts: every later script must see what a freshly built equal Project
 gives it, queries must leave the Project's settings untouched, save()/load() must not change.
 
+(5) Default-project discovery below project markers.  (6) Histories over environments in one
+fresh process: queries through Interpreter (live sys.path) and through Script with a
+SameEnvironment, interleaved with changes of the host's sys.path; every query is judged
+against the model fed with that environment's own current get_sys_path().
+
 `a` = <project>/n1 and `a/sub` = <project>/n1/n2 lie on some of the script locations' ancestor
 chains, `b` is a directory outside the project.
 """
 import importlib
 import importlib.machinery
 import itertools
+import json
 import os
+import sys
+import subprocess
 import shutil
 from pathlib import Path
 
@@ -40,8 +48,11 @@ DEPTH = 4
 PATH_FORMS = [('str', 'abs'), ('str', 'rel'), ('str', 'slash'), ('str', 'uni'),
               ('Path', 'abs'), ('Path', 'rel'), ('Path', 'slash'), ('Path', 'uni')]
 LISTS = [['a'], ['a', 'b'], ['b', 'a'], ['a', 'a'], ['a', 'a/sub']]
-SYS_PATHS = [None, ['str', []]] + [[k, l] for l in LISTS for k in ('str', 'Path')]
-ADDED = [['str', []]] + [[k, l] for l in LISTS for k in ('str', 'Path')]
+# lists that contain the project directory P itself: at every index, twice, among others
+P_LISTS = [['P'], ['P', 'b'], ['b', 'P'], ['b', 'a', 'P'], ['b', 'P', 'P']]
+SYS_PATHS = [None, ['str', []]] + [[k, l] for l in LISTS + P_LISTS for k in ('str', 'Path')]
+ADDED = [['str', []]] + [[k, l] for l in LISTS for k in ('str', 'Path')] + [['str', ['P']],
+                                                                            ['Path', ['b', 'P']]]
 ENV_PATHS = [None, 'str', 'Path']
 BINDINGS = {'inside': ('n1', 'n1/n2'), 'package': ('p1', 'p1/n2'), 'outside': ('../liba', '../liba/sub')}
 MODNAMES = ['dupall', 'dupsome']
@@ -137,7 +148,7 @@ def _entries(kind_list, pdir, binding):
     base = os.path.dirname(pdir)
     full = {'a': os.path.normpath(os.path.join(pdir, a)),
             'a/sub': os.path.normpath(os.path.join(pdir, asub)),
-            'b': os.path.join(base, 'libb')}
+            'b': os.path.join(base, 'libb'), 'P': pdir}
     vals = [full[n] for n in names]
     if kind == 'Path':
         return [Path(v) for v in vals], vals
@@ -542,6 +553,100 @@ def _discovery(jedi, env, out, case, base, only=None):
         out.fail(site, what, dict(detail, script=script_path, case=case))
 
 
+ENV_EVENTS = ['QI', 'QS', 'APP', 'INS', 'INSP']
+ENV_DEPTH = 4
+
+
+def _env_sequences(first):
+    return [seq for n in range(1, ENV_DEPTH + 1)
+            for seq in itertools.product(ENV_EVENTS, repeat=n)
+            if seq[0] == first and any(e[0] == 'Q' for e in seq)]
+
+
+def _envhist(jedi, env, out, first, base, upto=None):
+    """All event sequences that start with `first`, one after the other in THIS process (the
+    caller guarantees it is a fresh one): the history of a step is everything before it.
+      QI   query through Interpreter      (InterpreterEnvironment: the host's live sys.path)
+      QS   query through Script with the private SameEnvironment (its helper's sys.path)
+      APP  sys.path.append(<liba>)   INS  sys.path.insert(0, <libb>)
+      INSP sys.path.insert(1, <project dir>)
+    The host's sys.path is put back after every sequence (which is a change like any other)."""
+    pdir = os.path.join(base, 'proj')
+    script_path = os.path.join(pdir, 'n1', 'n2', 's.py')
+    original = list(sys.path)
+    for idx, seq in enumerate(_env_sequences(first)):
+        if upto is not None and idx > upto:
+            break
+        out.n['envhistories'] = out.n.get('envhistories', 0) + 1
+        try:
+            for k, ev in enumerate(seq):
+                what = ['envhist', first, idx, k]
+                if ev == 'APP':
+                    sys.path.append(os.path.join(base, 'liba'))
+                elif ev == 'INS':
+                    sys.path.insert(0, os.path.join(base, 'libb'))
+                elif ev == 'INSP':
+                    sys.path.insert(1, pdir)
+                if ev[0] != 'Q':
+                    continue
+                out.n['evals'] += 1
+                out.n['model_steps'] += 1
+
+                def run():
+                    project = jedi.Project(pdir)
+                    if ev == 'QI':
+                        script = jedi.Interpreter('import dupsome\n', [{}], path=script_path,
+                                                  project=project)
+                    else:
+                        script = jedi.Script('import dupsome\n', path=script_path, environment=env,
+                                             project=project)
+                    state = script._inference_state
+                    own = list(state.environment.get_sys_path())
+                    got = list(state.get_sys_path())
+                    composed = list(state.get_sys_path(add_init_paths=True))
+                    res = sorted({str(n.module_path) for n in script.infer(1, 10)
+                                  if n.type == 'module'})
+                    return own, got, composed, res
+                ok, r = _guard(out, what, run)
+                if not ok:
+                    continue
+                own, got, composed, res = r
+                exp = [p for p, _ in _model(pdir, None, [], True, own, script_path)]
+                importlib.invalidate_caches()
+                spec = importlib.machinery.PathFinder.find_spec('dupsome', composed)
+                want = [] if spec is None or not spec.origin else [spec.origin]
+                out.classes.add(('envhist', ev, tuple(sorted(set(seq[:k]))), pdir in own,
+                                 len(own) - len(set(own)) > 0, bool(want)))
+                out.hit('env-event:' + ev)
+                detail = {'sequence': list(seq), 'step': k, 'batch': first, 'sequence_number': idx,
+                          'history': 'all sequences %s* before it in one fresh process' % first}
+                if got != exp:
+                    out.fail('sys-path-differs-from-environments-own-path@' + ev, what,
+                             dict(detail, composed=got, documented=exp, environment_sys_path=own))
+                if res != want:
+                    out.fail('import-resolves-differently-from-PathFinder@' + ev, what,
+                             dict(detail, jedi=res, PathFinder=want, composed=composed))
+        finally:
+            sys.path[:] = original
+
+
+def _envhist_child(first):
+    """Run one batch in a fresh interpreter and hand back its result."""
+    env = dict(os.environ)
+    env.pop('JV_SCRATCH', None)
+    code = ('import json, shutil, sys; from jv import boot; from jv.props import c20; '
+            'c20._init(); r = c20._work({"kind": "envhist", "first": %r, "inline": True}); '
+            'shutil.rmtree(boot.scratch_root(), ignore_errors=True); '
+            'sys.stdout.write("\\nRESULT " + json.dumps(r))' % first)
+    p = subprocess.run([sys.executable, '-B', '-c', code], env=env, capture_output=True, text=True,
+                       timeout=1800)
+    line = [l for l in p.stdout.splitlines() if l.startswith('RESULT ')]
+    if p.returncode != 0 or not line:
+        raise RuntimeError('environment-history child failed (%s): %s'
+                           % (p.returncode, (p.stderr or p.stdout)[-1500:]))
+    return json.loads(line[-1][len('RESULT '):])
+
+
 def _environment_paths(jedi, out, base, only=None):
     """environment_path given as str and as Path selects the same interpreter."""
     exes = {}
@@ -564,6 +669,8 @@ def _init():
 
 
 def _work(task):
+    if task['kind'] == 'envhist' and not task.get('inline'):
+        return _envhist_child(task['first'])
     jedi = boot.boot()
     env = boot.environment()
     base = _build_world()['base']
@@ -577,6 +684,10 @@ def _work(task):
         env.get_sys_path()
         if task['kind'] == 'environment':
             _environment_paths(jedi, out, base, only)
+        if task['kind'] == 'envhist':
+            _envhist(jedi, env, out, task['first'], base, task.get('upto'))
+            if only is not None:
+                out.fails = [f for f in out.fails if f['what'] == only]
         for case in task.get('cases', []):
             _discovery(jedi, env, out, case, base, only)
         for cfg in task.get('configs', []):
@@ -678,6 +789,9 @@ def _tasks(tier):
     levels.append(('get_default_project: saved config / marker kind x marker depth x script depth, '
                    'two markers, packages', [{'kind': 'discovery', 'cases': cases[i::n]}
                                              for i in range(n)]))
+    levels.append(('environment histories in a fresh process: all sequences of length <= %d over '
+                   '%s' % (ENV_DEPTH, '/'.join(ENV_EVENTS)),
+                   [{'kind': 'envhist', 'first': e} for e in ENV_EVENTS]))
     levels.append(('environment_path as str and Path', [{'kind': 'environment'}]))
     return levels
 
@@ -715,6 +829,14 @@ def run(ctx):
             hits[k] = hits.get(k, 0) + v
         for f in r['fails']:
             cfg = f.get('cfg')
+            if t['kind'] == 'envhist':
+                _, first, idx, k = f['what']
+                iid = 'envhist|batch %s|#%d %s|step %d' % (
+                    first, idx, '>'.join(f['detail'].get('sequence', [])), k)
+                case = {'task': {'kind': 'envhist', 'first': first, 'upto': idx, 'inline': True,
+                                 'only': f['what']}}
+                ctx.violation(f['site'], iid, f['detail'], case)
+                continue
             if t['kind'] == 'discovery':
                 c = f['what'][1]
                 iid = 'discovery|saved=%s|pk=%d|script@%d|%s' % (
@@ -739,7 +861,8 @@ def run(ctx):
             done.append('%s: %d tasks' % (name, n))
     ctx.coverage.update({
         'states': tot.get('states', 0) + tot.get('roundtrips', 0) + tot.get('imports', 0)
-        + tot.get('histories', 0) + tot.get('discoveries', 0),
+        + tot.get('histories', 0) + tot.get('discoveries', 0) + tot.get('envhistories', 0),
+        'environment_histories': tot.get('envhistories', 0),
         'default_project_discoveries': tot.get('discoveries', 0),
         'histories': tot.get('histories', 0),
         'transitions': tot.get('evals', 0), 'evaluations': tot.get('evals', 0),
